@@ -107,7 +107,8 @@ def parseClasses (c : Json) : R (Names × List Cls) := do
       | some p => (clsId names p).map some
       | none => pure none
     let own ← (← arr j "fields").toList.mapM (parseField names)
-    return ({ name := chars (← str j "name"), parent := parent, dis := optBool j "dis", own := own } : Cls))
+    return ({ name := chars (← str j "name"), parent := parent, dis := optBool j "dis", own := own,
+              frozen := (optBool j "frozen").getD false, mixin := (optBool j "mixin").getD false } : Cls))
   return (names, cls)
 
 def parsePi (names : Names) (c : Json) : R (Nat → List Nat) := do
